@@ -26,25 +26,86 @@ inductive Atom
   | null
   deriving DecidableEq, Inhabited
 
-/-- A dictionary whose values are atoms (a direct Resources dictionary, a page-tree node written
-directly into a Kids array). -/
-abbrev Flat := List (String × Atom)
-
-/-- Array elements: an atom or a direct dictionary of atoms. -/
-inductive Elem
-  | atom (a : Atom)
-  | dict (kvs : Flat)
-  deriving DecidableEq, Inhabited
-
-/-- Values of dictionary entries: an atom, an array, a dictionary of atoms. -/
+/-- Values: an atom, an array of values, a dictionary of values — nested to any depth (a direct
+Page dictionary inside a Kids array with a direct MediaBox array and a direct Resources dictionary
+inside it, …). -/
 inductive Val
   | atom (a : Atom)
-  | arr (xs : List Elem)
-  | dict (kvs : Flat)
-  deriving DecidableEq, Inhabited
+  | arr (xs : List Val)
+  | dict (kvs : List (String × Val))
+  deriving Inhabited
 
-/-- A dictionary object (page-tree node, indirect Resources, catalog). -/
+/-- Array elements are values. -/
+abbrev Elem := Val
+
+/-- A dictionary (page-tree node, Resources, catalog). -/
 abbrev Dict := List (String × Val)
+
+/-- A dictionary written directly inside another object. -/
+abbrev Flat := Dict
+
+mutual
+  /-- Structural equality test (the nested inductive type has no derived `DecidableEq`). -/
+  def Val.beq : Val → Val → Bool
+    | .atom a, .atom b => a == b
+    | .arr xs, .arr ys => Val.beqList xs ys
+    | .dict xs, .dict ys => Val.beqDict xs ys
+    | _, _ => false
+  def Val.beqList : List Val → List Val → Bool
+    | [], [] => true
+    | x :: xs, y :: ys => Val.beq x y && Val.beqList xs ys
+    | _, _ => false
+  def Val.beqDict : List (String × Val) → List (String × Val) → Bool
+    | [], [] => true
+    | (k, x) :: xs, (k', y) :: ys => k == k' && Val.beq x y && Val.beqDict xs ys
+    | _, _ => false
+end
+
+mutual
+  theorem Val.eq_of_beq : ∀ a b : Val, Val.beq a b = true → a = b
+    | .atom a, .atom b, h => by simp only [Val.beq, beq_iff_eq] at h; rw [h]
+    | .arr xs, .arr ys, h => by simp only [Val.beq] at h; rw [Val.eq_of_beqList xs ys h]
+    | .dict xs, .dict ys, h => by simp only [Val.beq] at h; rw [Val.eq_of_beqDict xs ys h]
+    | .atom _, .arr _, h => by simp [Val.beq] at h
+    | .atom _, .dict _, h => by simp [Val.beq] at h
+    | .arr _, .atom _, h => by simp [Val.beq] at h
+    | .arr _, .dict _, h => by simp [Val.beq] at h
+    | .dict _, .atom _, h => by simp [Val.beq] at h
+    | .dict _, .arr _, h => by simp [Val.beq] at h
+  theorem Val.eq_of_beqList : ∀ xs ys : List Val, Val.beqList xs ys = true → xs = ys
+    | [], [], _ => rfl
+    | x :: xs, y :: ys, h => by
+      simp only [Val.beqList, Bool.and_eq_true] at h
+      rw [Val.eq_of_beq x y h.1, Val.eq_of_beqList xs ys h.2]
+    | [], _ :: _, h => by simp [Val.beqList] at h
+    | _ :: _, [], h => by simp [Val.beqList] at h
+  theorem Val.eq_of_beqDict : ∀ xs ys : List (String × Val), Val.beqDict xs ys = true → xs = ys
+    | [], [], _ => rfl
+    | (k, x) :: xs, (k', y) :: ys, h => by
+      simp only [Val.beqDict, Bool.and_eq_true, beq_iff_eq] at h
+      rw [h.1.1, Val.eq_of_beq x y h.1.2, Val.eq_of_beqDict xs ys h.2]
+    | [], _ :: _, h => by simp [Val.beqDict] at h
+    | _ :: _, [], h => by simp [Val.beqDict] at h
+end
+
+mutual
+  theorem Val.beq_refl : ∀ a : Val, Val.beq a a = true
+    | .atom a => by simp [Val.beq]
+    | .arr xs => by simp only [Val.beq]; exact Val.beqList_refl xs
+    | .dict xs => by simp only [Val.beq]; exact Val.beqDict_refl xs
+  theorem Val.beqList_refl : ∀ xs : List Val, Val.beqList xs xs = true
+    | [] => rfl
+    | x :: xs => by simp only [Val.beqList, Bool.and_eq_true]; exact ⟨Val.beq_refl x, Val.beqList_refl xs⟩
+  theorem Val.beqDict_refl : ∀ xs : List (String × Val), Val.beqDict xs xs = true
+    | [] => rfl
+    | (k, x) :: xs => by
+      simp only [Val.beqDict, Bool.and_eq_true, beq_self_eq_true, true_and]
+      exact ⟨Val.beq_refl x, Val.beqDict_refl xs⟩
+end
+
+instance : DecidableEq Val := fun a b =>
+  if h : Val.beq a b = true then isTrue (Val.eq_of_beq a b h)
+  else isFalse (fun e => h (e ▸ Val.beq_refl a))
 
 /-- An indirect object: a dictionary or a plain value. -/
 inductive Obj
@@ -61,8 +122,8 @@ def Store.get (g : Store) (n : Nat) : Option Obj := g.lookup n
 /-- `dict.get(k)`. -/
 def dget (d : Dict) (k : String) : Option Val := d.lookup k
 
-/-- A dictionary of atoms as a dictionary object. -/
-def liftFlat (kvs : Flat) : Dict := kvs.map (fun ka => (ka.1, Val.atom ka.2))
+/-- A direct dictionary as a dictionary object. -/
+def liftFlat (kvs : Flat) : Dict := kvs
 
 /-- Exceptions that can end the iteration. `fuel` is not a Python exception: it marks an exhausted
 recursion budget of the model (`Props/C04.lean` proves it never appears with the stated fuel). -/
@@ -153,6 +214,7 @@ def nodeOf (g : Store) (kid : Elem) : Except Err (Option Nat × Dict) :=
     else .error .objectNotFound
   | .atom _ => .ok (none, [])
   | .dict kvs => .ok (none, liftFlat kvs)
+  | .arr _ => .ok (none, [])
 
 /-- The `for child in list_value(Kids): yield from depth_first_search(child, props, visited)` loop,
 over an arbitrary visitor of one child. An exception ends the loop. -/
@@ -201,6 +263,7 @@ structure Page where
 def numOf (g : Store) (e : Elem) : Option Rat :=
   match e with
   | .dict _ => none
+  | .arr _ => none
   | .atom a =>
     match resolve g (.atom a) with
     | .val (.atom (.int i)) => some (i : Rat)
